@@ -1178,8 +1178,13 @@ func restoreFromSavepointDepth(p Program, c *hx.Case, fs *storage.MemoryFilesyst
 		w.H.mu.Lock()
 		defer w.H.mu.Unlock()
 		for split, r := range last {
-			if w.H.Applied[r.Key+"/"+split] != r.Ord+1 {
+			if w.H.Applied[r.Key+"/"+split] < r.Ord+1 {
 				return false
+			}
+			for _, f := range r.Fan {
+				if w.H.Applied[f.Key+"/"+split] < f.Ord+1 {
+					return false
+				}
 			}
 		}
 		return true
